@@ -118,6 +118,8 @@ def _cases(tier, rng):
                    "parallel": True}
         # kill points / torn writes: count the write events of an uninterrupted run first
         yield {"prog": prog, "storage": "file_array", "faults": "ENUM-KILLS"}
+        if q % 2 == 0:  # memory storages persist at the end of a run: the kill points are the writes of that persist
+            yield {"prog": prog, "storage": "dict", "faults": "ENUM-KILLS"}
 
 
 def _global_call_fault(prog, k):
